@@ -132,11 +132,11 @@ Fixpoint expression (fuel : nat) (e : expr) (ctx : N) {struct fuel} : M (list ir
         ra <- expr' a ctx ;; rb <- expr' b ctx ;; c <- fresh ;;
         ret (fst ra ++ fst rb ++ [IEquals c (snd ra) (snd rb); IAssert c], c)
     | EBinOp And a b _ =>
-        ra <- expr' a ctx ;; rb <- expr' b ctx ;; c <- fresh ;;
-        ret (fst ra ++ [IBool c false; IIf (snd ra)] ++ fst rb ++ [IAssign c (snd rb); IEnd], c)
+        ra <- expr' a ctx ;; rb <- expr' b ctx ;; c <- fresh ;; fl <- fresh ;;
+        ret (fst ra ++ [IDefine c; IBool fl false; IAssign c fl; IIf (snd ra)] ++ fst rb ++ [IAssign c (snd rb); IEnd], c)
     | EBinOp Or a b _ =>
-        ra <- expr' a ctx ;; rb <- expr' b ctx ;; neg_a <- fresh ;; c <- fresh ;;
-        ret (fst ra ++ [IBool c true; INot neg_a (snd ra); IIf neg_a] ++ fst rb ++ [IAssign c (snd rb); IEnd], c)
+        ra <- expr' a ctx ;; rb <- expr' b ctx ;; neg_a <- fresh ;; c <- fresh ;; tr <- fresh ;;
+        ret (fst ra ++ [IDefine c; IBool tr true; IAssign c tr; INot neg_a (snd ra); IIf neg_a] ++ fst rb ++ [IAssign c (snd rb); IEnd], c)
     | EBinOp op a b _ =>
         ra <- expr' a ctx ;; rb <- expr' b ctx ;; c <- fresh ;;
         match binop_ir op c (snd ra) (snd rb) with
@@ -158,7 +158,7 @@ Fixpoint expression (fuel : nat) (e : expr) (ctx : N) {struct fuel} : M (list ir
                       blk <- eblock out body ctx ;;
                       ret ([IBool v true; IIf v] ++ blk)
                   end) branches ;;
-        ret (concat code ++ map (fun _ => IEnd) branches, out)
+        ret ([IDefine out] ++ concat code ++ map (fun _ => IEnd) branches, out)
     | ECase to_match branches fall_through _ =>
         rc <- expr' to_match ctx ;;
         tag <- fresh ;; value <- fresh ;; out <- fresh ;;
@@ -167,13 +167,13 @@ Fixpoint expression (fuel : nat) (e : expr) (ctx : N) {struct fuel} : M (list ir
                    | CaseBranch pattern _ variable body _ =>
                        blk <- eblock out body ctx ;;
                        exp_str <- fresh ;; cmp <- fresh ;;
-                       ret ((match variable with Some v => [IAssign v value] | None => [] end)
+                       ret ((match variable with Some v => [IDefine v; IAssign v value] | None => [] end)
                             ++ [IStr exp_str pattern; IEquals cmp exp_str tag; IIf cmp]
                             ++ blk ++ [IElse])
                    end) branches ;;
         ft <- eblock out (match fall_through with Some b => b | None => [] end) ctx ;;
         tag_index <- fresh ;; value_index <- fresh ;;
-        ret (fst rc ++ [IInt tag_index 1; IIndex tag (snd rc) tag_index;
+        ret (fst rc ++ [IDefine out; IInt tag_index 1; IIndex tag (snd rc) tag_index;
                         IInt value_index 2; IIndex value (snd rc) value_index]
              ++ concat bcode ++ ft ++ map (fun _ => IEnd) branches, out)
     | EBlob _ fields self_var _ =>
@@ -233,7 +233,7 @@ with statement (fuel : nat) (s : stmt) (ctx : N) {struct fuel} : M (list ir) :=
         let '(pre_code, current, post_code) := pcp in
         rv <- expr' value ctx ;;
         opi <- match op with
-               | Nop => ret (IAssign res (snd rv))
+               | Nop => ret (ICopy res (snd rv))
                | Add => ret (IAdd res current (snd rv))
                | Sub => ret (ISub res current (snd rv))
                | Mul => ret (IMul res current (snd rv))
